@@ -89,9 +89,10 @@ class C01(Cfg):
                   "changed, moved, re-signed or deleted by an accepted local operation belongs to a change that passed the right check — own-rows right "
                   "when the caller creates the row or is its author, all-rows right otherwise, at the date of the operation, in the room the row enters AND in "
                   "the room it leaves; a refused operation returns the database unchanged; the decision is the room's at that date (past stability, C10 lemmas). "
-                  "For the code as it is the statement is FALSE: decide-checked witnesses for the nested sub-entity under an unchanged parent (#1), the departing "
-                  "room looked up with the destination id (#2), the reference deletion that re-signs the source row (#3) and the unguarded reference deletion on "
-                  "sys.Room (#32); the guarded statement is proved. Room mutations: the caller of an accepted room mutation is admin in the resulting room or only "
+                  "Each deviation found is a switch with a decide-checked witness: the nested sub-entity under an unchanged parent (#1), the departing room looked up "
+                  "with the destination id (#2), the source row re-signed by a reference deletion that removes nothing (#3a), the unguarded reference deletion on sys.Room (#32) "
+                  "- all FIXED in /repo since (c887d69, cfb7678, 456214b, f1df104; replays kept as regression cases) - and, still open: the right of a reference deletion judged "
+                  "on the reference's author (#3b), incoming references removed with a deleted row; the guarded statement is proved for any switch values. Room mutations: the caller of an accepted room mutation is admin in the resulting room or only "
                   "adds users to groups it administers. The model is tied to /repo by running both on generated operation sequences and comparing verdict and the full "
                   "content of _node, _edge and both deletion logs after every operation.")
     level_note = ("Trusted: Lean kernel, the hand-written model lean/DiscretModel/Model/LocalWrite.lean (+Room, RoomBuild) and its harness. Modelled and exercised: "
